@@ -122,6 +122,21 @@ let run (t : string array) : string =
                 (match l.l_pass with None -> "-" | Some p -> string_of_int (int_of_z p))
                 (int_of_z l.l_npix)) ls))
       (scan_lines img hf)
+  | "raw_data_size" -> Printf.sprintf "ok %d" (int_of_z (raw_data_size (parse_img t.(1)).hdr))
+  | "interlace" -> res_str fmt_img (interlace_image (parse_img t.(1)))
+  | "deinterlace" -> res_str fmt_img (deinterlace_image (parse_img t.(1)))
+  (* spec_layout <w> <h> <bpp> <il> -> len:pass:npix,... (no filter byte) *)
+  | "spec_layout" ->
+    let ls = spec_layout (z_of_int (int_of_string t.(1))) (z_of_int (int_of_string t.(2))) (z_of_int (int_of_string t.(3))) (t.(4) = "1") in
+    "ok " ^ (match ls with [] -> "-" | _ -> String.concat "," (List.map (fun ((p, n), b) ->
+        Printf.sprintf "%d:%s:%d" (int_of_z b) (match p with None -> "-" | Some p -> string_of_int (int_of_z p)) (int_of_z n)) ls))
+  | "spec_raw_size" ->
+    Printf.sprintf "ok %d" (int_of_z (spec_raw_size (z_of_int (int_of_string t.(1))) (z_of_int (int_of_string t.(2))) (z_of_int (int_of_string t.(3))) (t.(4) = "1") (t.(5) = "1")))
+  (* spec_pixels <w> <h> <bpp> <il> <data> -> rows of pixel values *)
+  | "spec_pixels" ->
+    (match spec_image_pixels (z_of_int (int_of_string t.(1))) (z_of_int (int_of_string t.(2))) (z_of_int (int_of_string t.(3))) (t.(4) = "1") (unhex t.(5)) with
+     | None -> "none"
+     | Some rows -> "ok " ^ String.concat ";" (List.map (fun r -> String.concat "," (List.map (fun px -> string_of_int (int_of_z (sval px))) r)) rows))
   (* spec-side commands (oracle) *)
   | "spec_recon_line" ->
     "ok " ^ hex (spec_recon_line (nat_of_int (int_of_string t.(1))) (zb (int_of_string t.(2))) (unhex t.(3)) (unhex t.(4)))
